@@ -536,6 +536,7 @@ inductive Op where
   | shuffleTaxa (rs : List Nat)
   | encode (suppress collapse : Bool)
   | reorient (k mode : Nat)
+  | setSeed (n : Nat)
 
 mutual
 def containsId (x : Nat) : T → Bool
@@ -620,6 +621,12 @@ def step (s : St) : Op → Except Err St
   | .rotate mode => .ok { s with t := rotate mode s.t }
   | .shuffleTaxa rs => .ok { s with t := shuffleTaxa rs s.t }
   | .encode sup collapse => .ok (encodeStruct sup collapse s)
+  | .setSeed n =>
+    -- `tree.seed_node = node` (the managed setter): the node is spliced out of its context and becomes the tree;
+    -- what is left of the old tree is no longer part of it
+    match s.t.find? n with
+    | none => .error .badInput
+    | some sub => .ok { s with t := sub }
   | .reorient k mode =>
     -- `randomly_reorient` under a scripted rng: `sample(nodes(), 1)` yields the k-th node in pre-order
     match s.t.find? k with
